@@ -91,6 +91,10 @@ void run_case(ByteSource& s, CaseInfo& ci) {
   std::string hc;
   std::vector<double> h = gen_H(s, d, &hc);
   unsigned sub = s.choose(4);
+  // (tail byte) interval averages of extremely slow oscillations over extremely short intervals: every input is a finite normal double,
+  // the products w*t and w*(t1-t0) underflow; the average is then the unchanged entry
+  bool underflow_class = sub == 3 && s.tail_at(48) % 8 == 1;
+  if (underflow_class) { int e = 540 + (int)(s.tail_at(49) % 20); for (int k = 1; k < d; k++) h[d * k + k] = std::ldexp(h[d * k + k], -e); ci.label("interval-phase-underflows"); }
   std::vector<double> a = gen_dense(s, d);
   VecHolder hH, hA; SU_vector& H = hH.make(h, d, s.tail_choose(8)); SU_vector& A = hA.make(a, d, s.tail_choose(8));  // storage kinds must not matter
   ci.label(std::string("storage-H-") + hH.kind);
@@ -203,6 +207,7 @@ void run_case(ByteSource& s, CaseInfo& ci) {
     unsigned tk = s.tail_choose(4), dk = s.tail_choose(4);
     if (tk == 1) t0 = std::ldexp(1.0 + s.tail_u8() / 256.0, (int)s.tail_choose(41)) * (s.tail_choose(2) ? -1 : 1);
     if (dk == 1) dt = std::ldexp(1.0 + s.tail_u8() / 256.0, -(int)(10 + s.tail_choose(41)));
+    if (underflow_class) { int e = 520 + (int)(s.tail_at(50) % 20); t0 = std::ldexp(1.0 + s.tail_at(51) / 256.0, -e); dt = std::ldexp(1.0 + s.tail_at(52) / 256.0, -e); dk = 0; }
     double t1 = t0 + dt;
     if (dk == 2) { t1 = t0; for (unsigned u = 0, n = 1 + s.tail_choose(3); u < n; u++) t1 = ByteSource::ulp_step(t1, 1); }
     if (!(t1 > t0)) { t1 = ByteSource::ulp_step(t0, 1); }
